@@ -118,6 +118,20 @@ def rand_constraint(rng, info, depth=2, bound=None):
     if depth <= 0 or r < 0.55:
         return rand_formula(rng, info, bound)
     sel = rand_sel(rng, info, depth=1, items=False)      # quantifying over an item/slice selection is not documented
+    sym_bound = [b[1] for b in (bound or []) if b[1].startswith("<")]
+    if sym_bound and rng.random() < 0.6:
+        # nested quantifier whose range is rooted at an outer bound variable
+        sel = (rng.choice(["dot", "ddot"]), ("sym", rng.choice(sym_bound)), rng.choice(info["num"] + info["word"]))
+    elif not bound and rng.random() < 0.35:
+        # make sure nesting with a dependent inner range is frequent: build it explicitly
+        outer_sym = rng.choice(list(info["children"]))
+        var = rng.choice(["<v>", "<q>"])
+        inner_var = "<v2>" if rng.random() < 0.5 else "y"
+        inner_sel = (rng.choice(["dot", "ddot"]), ("sym", var), rng.choice(info["children"][outer_sym]))
+        inner_body = rand_formula(rng, info, [("var", var), ("var", inner_var)])
+        ik = rng.choice(["forall", "exists"]) if inner_var.startswith("<") else rng.choice(["all", "any"])
+        ok = rng.choice(["forall", "exists"])
+        return (ok, var, ("sym", outer_sym), (ik, inner_var, inner_sel, inner_body))
     if r < 0.8:
         k = rng.choice(["all", "any"])
         if rng.random() < 0.6:
